@@ -52,6 +52,9 @@ import (
 // ---------------------------------------------------------------------------------------------
 // configuration model
 
+const c09NE = 4 // backend identities (address:port) per sub-cluster
+
+// c09be: addr is the index of the (address, port) identity in c09eps.
 type c09be struct{ name, addr, w int }
 
 type c09sub struct {
@@ -195,17 +198,29 @@ func (s c09sub) count(addr int) (n int, name int, allPos bool) {
 var (
 	c09cnames = [2]string{"c0", "c1"}
 	c09snames = [2]string{"s0", "s1"}
-	c09addrs  = [3]string{"10.0.0.1", "10.0.0.2", "10.0.0.3"}
+	// backend identities: a 2 x 2 grid of (address, port). e0/e1 (the default content of a
+	// sub-cluster) differ in both coordinates; e2 shares its address with e0 and its port with
+	// e1, e3 shares its address with e1 and its port with e0 - so keys that collide on the
+	// address-only or the port-only projection are exercised.
+	c09eps = [c09NE]struct {
+		ip   string
+		port int
+	}{{"10.0.0.1", 80}, {"10.0.0.2", 81}, {"10.0.0.1", 81}, {"10.0.0.2", 80}}
 )
 
 func c09cname(i int) string { return c09cnames[i] }
 func c09sname(i int) string { return c09snames[i] }
-func c09addr(i int) string  { return c09addrs[i] }
+func c09addr(i int) string  { return c09eps[i].ip }
+func c09port(i int) int     { return c09eps[i].port }
+func c09addrInfo(i int) string {
+	return c09eps[i].ip + ":" + strconv.Itoa(c09eps[i].port)
+}
 func c09bname(i int) string { return "n" + strconv.Itoa(i) }
 
-func c09addrIdx(addr string) int {
-	for i := 0; i < 3; i++ {
-		if c09addr(i) == addr {
+// c09epIdx maps a real backend object to its identity in the grid (-1: not in the universe).
+func c09epIdx(b *backend.BfeBackend) int {
+	for i := 0; i < c09NE; i++ {
+		if c09eps[i].ip == b.Addr && c09eps[i].port == b.Port {
 			return i
 		}
 	}
@@ -262,7 +277,7 @@ func (c c09cfg) build(ver int) (gslb_conf.GslbConf, cluster_table_conf.ClusterTa
 				}
 				var list cluster_table_conf.SubClusterBackend
 				for _, b := range s.bes {
-					name, addr, port, w := c09bname(b.name), c09addr(b.addr), 80, b.w
+					name, addr, port, w := c09bname(b.name), c09addr(b.addr), c09port(b.addr), b.w
 					list = append(list, &cluster_table_conf.BackendConf{Name: &name, Addr: &addr, Port: &port, Weight: &w})
 				}
 				cb[c09sname(si)] = list
@@ -295,19 +310,38 @@ var c09dupAllowed = func() bool {
 	return cluster_table_conf.ClusterTableConfCheck(tb) == nil
 }()
 
-func c09ops(full bool) []c09op {
+// c09ops returns the alphabet: "full" = every operation on both clusters; "lean" = every
+// operation on cluster c0, a reduced set on c1; "core" = every operation on sub-cluster c0/s0,
+// structural operations only elsewhere (for the deepest pass).
+func c09ops(alpha string) []c09op {
+	if alpha == "core" {
+		var ops []c09op
+		for _, o := range c09ops("lean") {
+			switch {
+			case o.kind == "same", o.c == 0 && o.s == 0:
+				ops = append(ops, o)
+			case o.c == 0 && (o.kind == "gtog" || o.kind == "stog" || o.kind == "tog" && o.a == 0):
+				ops = append(ops, o)
+			case o.c == 1 && (o.kind == "cgtog" || o.kind == "ctog"):
+				ops = append(ops, o)
+			}
+		}
+		return ops
+	}
+	full := alpha == "full"
 	var ops []c09op
 	ops = append(ops, c09op{"same", 0, 0, 0})
 	for c := 0; c < 2; c++ {
 		rich := full || c == 0
 		for s := 0; s < 2; s++ {
-			for a := 0; a < 3; a++ {
-				if rich || a != 1 {
+			for a := 0; a < c09NE; a++ {
+				if rich || a == 0 || a == 2 {
 					ops = append(ops, c09op{"tog", c, s, a})
 				}
 			}
 			if rich {
-				ops = append(ops, c09op{"wt", c, s, 0}, c09op{"ren", c, s, 0}, c09op{"dup", c, s, 0}, c09op{"mv", c, s, 0})
+				ops = append(ops, c09op{"wt", c, s, 0}, c09op{"ren", c, s, 0}, c09op{"ren", c, s, 2}, c09op{"dup", c, s, 0},
+					c09op{"mv", c, s, 0}, c09op{"mv", c, s, 1})
 				if full {
 					ops = append(ops, c09op{"wt", c, s, 1})
 				}
@@ -375,7 +409,14 @@ func c09edit(cfg c09cfg, o c09op) (c09cfg, bool) {
 		if sub.bes[i].name >= 20 {
 			return n, false
 		}
-		sub.bes[i].name = (sub.bes[i].name + 10) % 20
+		if o.a == 2 { // the entry at e2 takes / gives back the default name of the entry at e0 (equal names)
+			sub.bes[i].name = 2 - sub.bes[i].name
+			if sub.bes[i].name != 0 && sub.bes[i].name != 2 {
+				return n, false
+			}
+		} else {
+			sub.bes[i].name = (sub.bes[i].name + 10) % 20
+		}
 	case "dup":
 		if !cl.inT || !sub.inT || !c09dupAllowed {
 			return n, false
@@ -394,7 +435,7 @@ func c09edit(cfg c09cfg, o c09op) (c09cfg, bool) {
 			}
 			sub.bes = append(sub.bes, c09be{20 + o.a, o.a, 1})
 		}
-	case "mv": // the entry named n0/n10 changes its address a0 <-> a2 (name persists, address does not)
+	case "mv": // the entry named n0/n10 changes its identity (name persists, address or port does not)
 		if !cl.inT || !sub.inT {
 			return n, false
 		}
@@ -407,8 +448,18 @@ func c09edit(cfg c09cfg, o c09op) (c09cfg, bool) {
 		if i < 0 {
 			return n, false
 		}
-		to := 2 - sub.bes[i].addr
-		if sub.bes[i].addr == 1 || find(to) >= 0 {
+		// a=0: e0 <-> e2 (same address, other port); a=1: e0 <-> e3 (other address, same port)
+		alt := 2 + o.a
+		to := 0
+		switch sub.bes[i].addr {
+		case 0:
+			to = alt
+		case alt:
+			to = 0
+		default:
+			return n, false
+		}
+		if find(to) >= 0 {
 			return n, false
 		}
 		if cnt, _, _ := sub.count(sub.bes[i].addr); cnt != 1 {
@@ -466,7 +517,7 @@ func c09edit(cfg c09cfg, o c09op) (c09cfg, bool) {
 type c09key struct{ c, s, a int }
 
 // c09msTab is the model state of every live backend, indexed [cluster][sub][addr].
-type c09msTab [2][2][3]c09ms
+type c09msTab [2][2][c09NE]c09ms
 
 func (t *c09msTab) get(k c09key) *c09ms {
 	if k.c < 0 || k.s < 0 || k.a < 0 {
@@ -483,7 +534,7 @@ func (t *c09msTab) get(k c09key) *c09ms {
 func (t *c09msTab) each(f func(k c09key, m *c09ms)) {
 	for c := 0; c < 2; c++ {
 		for s := 0; s < 2; s++ {
-			for a := 0; a < 3; a++ {
+			for a := 0; a < c09NE; a++ {
 				if m := &t[c][s][a]; m.present {
 					f(c09key{c, s, a}, m)
 				}
@@ -532,7 +583,7 @@ func (w *c09world) index() {
 			w.seen[v.B] = true
 			w.order = append(w.order, v.B)
 		}
-		k := c09key{-1, -1, c09addrIdx(v.B.Addr)}
+		k := c09key{-1, -1, c09epIdx(v.B)}
 		for i := 0; i < 2; i++ {
 			if c09cname(i) == cn {
 				k.c = i
@@ -663,7 +714,7 @@ func c09newWorld(init c09cfg, useInit bool, report func(sig, detail string)) (*c
 			if !w.cfg.live(ci, si) {
 				continue
 			}
-			for a := 0; a < 3; a++ {
+			for a := 0; a < c09NE; a++ {
 				if n, _, _ := w.cfg.cl[ci].subs[si].count(a); n > 0 {
 					w.ms[ci][si][a] = c09ms{present: true, class: "init"}
 				}
@@ -717,7 +768,7 @@ func (w *c09world) modelReload(n c09cfg) {
 			if !n.live(ci, si) {
 				continue
 			}
-			for a := 0; a < 3; a++ {
+			for a := 0; a < c09NE; a++ {
 				cn, nameN, _ := n.cl[ci].subs[si].count(a)
 				if cn == 0 {
 					continue
@@ -845,8 +896,8 @@ func (w *c09world) notLive(cn, sn string, b *backend.BfeBackend) string {
 	if si < 0 || !w.cfg.live(ci, si) {
 		return "subcluster"
 	}
-	a := c09addrIdx(b.Addr)
-	if a < 0 || b.Port != 80 {
+	a := c09epIdx(b)
+	if a < 0 {
 		return "backend"
 	}
 	if n, _, _ := w.cfg.cl[ci].subs[si].count(a); n == 0 {
@@ -920,7 +971,7 @@ func (w *c09world) key() string {
 	b = append(b, '#')
 	for c := 0; c < 2; c++ {
 		for s := 0; s < 2; s++ {
-			for a := 0; a < 3; a++ {
+			for a := 0; a < c09NE; a++ {
 				if m := w.ms.get(c09key{c, s, a}); m != nil {
 					b = append(b, byte('0'+c), byte('0'+s), byte('0'+a), byte('0'+b2i(m.known)))
 				}
@@ -995,7 +1046,7 @@ func (w *c09world) probe() (picks int) {
 			if !w.cfg.live(ci, si) || s.gw <= 0 {
 				continue
 			}
-			for a := 0; a < 3; a++ {
+			for a := 0; a < c09NE; a++ {
 				n, _, allPos := s.count(a)
 				if n == 0 || !allPos {
 					continue
@@ -1239,15 +1290,14 @@ func c09partA(r *vk.Run) {
 	roots := c09roots()
 	type pass struct {
 		alpha string
-		full  bool
 		depth int
 		roots []int
 	}
 	var passes []pass
 	if r.Thorough() {
-		passes = []pass{{"full", true, 3, []int{2, 1, 0}}, {"lean", false, 4, []int{2, 1, 0}}}
+		passes = []pass{{"full", 3, []int{2, 1, 0}}, {"full", 4, []int{2}}, {"core", 4, []int{1, 0}}}
 	} else {
-		passes = []pass{{"full", true, 3, []int{2}}, {"lean", false, 3, []int{1}}, {"full", true, 3, []int{0}}}
+		passes = []pass{{"full", 2, []int{2, 1, 0}}, {"full", 3, []int{2}}, {"lean", 3, []int{1, 0}}}
 	}
 	if r.Replaying() {
 		rc := r.ReplayCase()
@@ -1264,12 +1314,12 @@ func c09partA(r *vk.Run) {
 		alpha = strings.TrimPrefix(parts[2], "alpha=")
 		ops = strings.TrimPrefix(parts[3], "ops=")
 		hist := vk.ParseInts(ops)
-		x := &c09bfsCtx{r: r, root: roots[ri], rootIdx: ri, alpha: alpha, ops: c09ops(alpha == "full"), depth: len(hist), checked: map[string]bool{}, force: true}
+		x := &c09bfsCtx{r: r, root: roots[ri], rootIdx: ri, alpha: alpha, ops: c09ops(alpha), depth: len(hist), checked: map[string]bool{}, force: true}
 		x.run(hist)
 		return
 	}
 	for _, ps := range passes {
-		ops := c09ops(ps.full)
+		ops := c09ops(ps.alpha)
 		for _, ri := range ps.roots {
 			name := fmt.Sprintf("%s@%d/%s", ps.alpha, ps.depth, roots[ri].name)
 			x := &c09bfsCtx{r: r, root: roots[ri], rootIdx: ri, alpha: ps.alpha, ops: ops, depth: ps.depth, checked: map[string]bool{}}
@@ -1325,11 +1375,13 @@ func c09e1targets() (names []string, cfgs []c09cfg) {
 	add("drop-cluster", c09op{"ctog", 0, 0, 0})
 	add("drop-sub-gslb-only", c09op{"gtog", 0, 0, 0})
 	add("remove-backend", c09op{"tog", 0, 0, 0})
-	add("add-backend", c09op{"tog", 0, 0, 2})
+	add("add-port-sibling", c09op{"tog", 0, 0, 2}) // same address as e0, other port
 	add("rename+weight", c09op{"ren", 0, 0, 0}, c09op{"wt", 0, 0, 1})
 	add("same")
 	add("replace-cluster", c09op{"cgtog", 0, 0, 0}, c09op{"cgtog", 1, 0, 0})
-	add("move-addr", c09op{"mv", 0, 0, 0})
+	add("move-port", c09op{"mv", 0, 0, 0})
+	add("add-addr-sibling", c09op{"tog", 0, 0, 3}) // same port as e0, other address
+	add("move-addr", c09op{"mv", 0, 0, 1})
 	return
 }
 
@@ -1463,13 +1515,13 @@ func c09e1check(r *vk.Run, scn c09scn, id string, out vsched.Outcome, w *c09worl
 				continue
 			}
 			for _, b := range w.cfg.cl[ci].subs[si].bes {
-				want[c09cname(ci)+"/"+c09sname(si)+"/"+c09addr(b.addr)] = true
+				want[c09cname(ci)+"/"+c09sname(si)+"/"+c09addrInfo(b.addr)] = true
 			}
 		}
 	}
 	have := map[string]bool{}
 	c09walk(w.t, func(cn string, s bal_gslb.C09SubView, _ int, v bal_slb.C09BackendView) {
-		have[cn+"/"+s.Name+"/"+v.B.Addr] = true
+		have[cn+"/"+s.Name+"/"+v.B.AddrInfo] = true
 	})
 	if fmt.Sprint(c09sorted(want)) != fmt.Sprint(c09sorted(have)) {
 		w.violation("e1:final-state-not-serial", fmt.Sprintf("table holds %v, the last completed reload configured %v", c09sorted(have), c09sorted(want)))
@@ -1485,7 +1537,7 @@ func c09e1check(r *vk.Run, scn c09scn, id string, out vsched.Outcome, w *c09worl
 		for _, st := range states {
 			for si := 0; si < 2; si++ {
 				if c09sname(si) == l.got.SubCluster && st.live(scn.balC, si) {
-					if n, _, _ := st.cl[scn.balC].subs[si].count(c09addrIdx(l.got.Addr)); n > 0 {
+					if n, _, _ := st.cl[scn.balC].subs[si].count(c09epIdx(l.got)); n > 0 {
 						ok = true
 					}
 				}
@@ -1524,26 +1576,40 @@ func (w *c09world) checkStateRelease() {
 func c09scenarios(thorough bool) []c09scn {
 	names, cfgs := c09e1targets()
 	var scns []c09scn
-	n := len(cfgs)
-	if !thorough {
-		n = 6
+	pair := func(i, j int) {
+		scns = append(scns, c09scn{name: "R(" + names[i] + ")|R(" + names[j] + ")|B", reloads: []c09cfg{cfgs[i], cfgs[j]}, balC: 0, balK: (i + j) % 2, fail: j%2 == 0})
 	}
-	for i := 0; i < n; i++ {
-		for j := i; j < n; j++ {
-			if !thorough && (i+j)%2 == 1 && j != i {
-				continue
-			}
-			scns = append(scns, c09scn{name: "R(" + names[i] + ")|R(" + names[j] + ")|B", reloads: []c09cfg{cfgs[i], cfgs[j]}, balC: 0, balK: (i + j) % 2, fail: j%2 == 0})
-		}
-	}
-	for i := 0; i < n; i++ {
+	actor := func(i int) {
 		scns = append(scns, c09scn{name: "R(" + names[i] + ")|A|B", reloads: []c09cfg{cfgs[i]}, avail: true, balC: 0, balK: 0, fail: true})
+	}
+	monitor := func(i int) {
 		scns = append(scns, c09scn{name: "R(" + names[i] + ")|M|B", reloads: []c09cfg{cfgs[i]}, monitor: true, balC: 0, balK: 1})
 	}
-	if thorough {
-		for i := 0; i < n; i++ {
-			scns = append(scns, c09scn{name: "R(" + names[i] + ")|R(same)|A|B", reloads: []c09cfg{cfgs[i], cfgs[5]}, avail: true, balC: 0, balK: 0})
+	if !thorough {
+		// 16 scenarios: one per shard
+		for _, p := range [][2]int{{0, 3}, {1, 2}, {2, 3}, {3, 4}, {0, 5}, {1, 4}, {3, 3}} {
+			pair(p[0], p[1])
 		}
+		for i := 0; i < 6; i++ {
+			actor(i)
+		}
+		for _, i := range []int{0, 2, 3} {
+			monitor(i)
+		}
+		return scns
+	}
+	n := len(cfgs)
+	for i := 0; i < n; i++ {
+		for j := i; j < n; j++ {
+			pair(i, j)
+		}
+	}
+	for i := 0; i < n; i++ {
+		actor(i)
+		monitor(i)
+	}
+	for i := 0; i < n; i++ {
+		scns = append(scns, c09scn{name: "R(" + names[i] + ")|R(same)|A|B", reloads: []c09cfg{cfgs[i], cfgs[5]}, avail: true, balC: 0, balK: 0})
 	}
 	return scns
 }
@@ -1557,7 +1623,13 @@ func c09partB(r *vk.Run) {
 	var passes []pass
 	if r.Thorough() {
 		all := c09scenarios(true)
-		passes = []pass{{"all@2", 2, all}, {"core@3", 3, c09scenarios(false)}}
+		var core []c09scn
+		for i, s := range c09scenarios(false) {
+			if i%2 == 0 {
+				core = append(core, s)
+			}
+		}
+		passes = []pass{{"all@2", 2, all}, {"core@3", 3, core}}
 	} else {
 		passes = []pass{{"quick@2", 2, c09scenarios(false)}}
 	}
@@ -1622,7 +1694,7 @@ func TestVerifC09(t *testing.T) {
 	debug.SetGCPercent(400) // allocation-heavy replays under the race runtime; live heap is small
 	c09initKeys()
 	r.Set("duplicate_addresses_accepted_by_loader", c09dupAllowed)
-	r.Set("universe", "2 clusters x 2 sub-clusters (+GSLB_BLACKHOLE) x 3 addresses; names n0/n10 (rename), n20 (duplicate address); backend weights 0..2; gslb weights absent/0/1")
+	r.Set("universe", "2 clusters x 2 sub-clusters (+GSLB_BLACKHOLE) x 4 backend identities on a 2x2 grid of address x port (10.0.0.1/10.0.0.2 x 80/81); names n<i>/n10 (rename), n0 twice (equal names), n20 (duplicate addr:port, only if the loader accepts it); backend weights 0..2; gslb weights absent/0/1")
 	part := os.Getenv("C09_PART") // debugging aid only: "A" or "B" runs one part
 	t1 := time.Now()
 	if part != "A" {
